@@ -298,20 +298,25 @@ Section Oracles.
              end
     end.
 
-  Definition parse_event (lines : list str) : event :=
+  (* None: no field line was recognised (only comments / unknown fields) - nothing to dispatch *)
+  Definition parse_event (lines : list str) : option event :=
     let '(d, e, i, r) := fold_left pe_step lines ([], None, None, None) in
-    {| e_data := join [c_join] d; e_event := e; e_id := i; e_retry := r |}.
+    match d, e, i, r with
+    | [], None, None, None => None
+    | _, _, _, _ => Some {| e_data := join [c_join] d; e_event := e; e_id := i; e_retry := r |}
+    end.
 
-  (* iter_sse over the lines of aiter_lines; [ev] = event_lines.  (`if event:` is always true: SSEEvent
-     defines neither __bool__ nor __len__.) *)
+  Definition olist {A} (o : option A) : list A := match o with Some x => [x] | None => [] end.
+
+  (* iter_sse over the lines of aiter_lines; [ev] = event_lines; `if event:` skips the None of _parse_sse_event *)
   Fixpoint sse_loop (ev : list str) (lines : list str) : list event :=
     match lines with
-    | [] => match ev with [] => [] | _ => [parse_event ev] end
+    | [] => match ev with [] => [] | _ => olist (parse_event ev) end
     | l :: r =>
         match l with
         | [] => match ev with
                 | [] => sse_loop [] r
-                | _ => parse_event ev :: sse_loop [] r
+                | _ => olist (parse_event ev) ++ sse_loop [] r
                 end
         | _ => sse_loop (ev ++ [l]) r
         end
@@ -441,12 +446,11 @@ Definition is_field (it : item) : bool := match it with IComment _ => false | _ 
 Definition has_field (b : block) : bool := existsb is_field b.
 (* what the receiver must see for the whole stream *)
 Definition spec_events (bs : list block) : list event := map expected (filter has_field bs).
-(* F18c: every block has at least one field line (iter_sse yields SSEEvent(data="") for a comment-only block) *)
-Definition guard_F18c (bs : list block) : bool := forallb has_field bs.
+(* (F18c, fixed: a comment-only block yields nothing; no guard conjunct.) *)
 
 (* (F18b, fixed: field values may start with any white space; exactly the one space the sender wrote after the
    colon is removed, so there is no guard conjunct for it any more.) *)
-Definition guard (bs : list block) : bool := guard_dom bs && guard_F18a bs && guard_F18c bs.
+Definition guard (bs : list block) : bool := guard_dom bs && guard_F18a bs.
 
 (* NDJSON sender: one record per line *)
 Definition guard_nd_F18a (ls : list str) : bool := forallb (forallb (fun c => negb (exotic_nl c))) ls.
